@@ -898,4 +898,147 @@ instance decFlushed : (s : State) → (ops : List Op) → Decidable (Flushed s o
     have := decFlushed (step s op).1 ops
     (inferInstance : Decidable ((needsFlush s op = true → s.rel = []) ∧ Flushed (step s op).1 ops))
 
+/-! ### The closed forms of `stepEmit` / `stepDrop` are the loops of the code -/
+
+
+
+/-- closed form of the walk over `ys` started in `t` -/
+def walked (v : Nat) (t : State) (ys : List Nat) : State :=
+  { t with chain := ((ys.filter (fun l => t.isCb l)).filter (fun c => 0 < t.left c)).reverse ++ t.chain,
+           rel := t.rel ++ ys.filter (fun l => !t.isCb l),
+           left := fun c => if c ∈ ys.filter (fun l => t.isCb l) then t.left c - 1 else t.left c,
+           got := fun c => if c ∈ ys.filter (fun l => t.isCb l) then t.got c ++ cbOuts t c v else t.got c }
+
+theorem walk_closed (v : Nat) (ys : List Nat) (t : State) (hn : ys.Nodup) :
+    ys.foldl (walkOne v) t = walked v t ys := by
+  induction ys generalizing t with
+  | nil => simp [walked]
+  | cons y ys ih =>
+    obtain ⟨hy, hn'⟩ := List.nodup_cons.mp hn
+    rw [List.foldl_cons, ih _ hn']
+    unfold walkOne
+    by_cases hk : t.isCb y = true
+    · by_cases hp : 0 < t.left y
+      · simp only [hk, hp, if_true, walked]
+        have hf : ∀ c, c ∈ ys → upd t.left y (t.left y - 1) c = t.left c := fun c hc =>
+          upd_other _ _ (fun e => hy (e ▸ hc))
+        have hfil : List.filter (fun c => decide (0 < upd t.left y (t.left y - 1) c)) (List.filter (fun l => t.isCb l) ys)
+            = List.filter (fun c => decide (0 < t.left c)) (List.filter (fun l => t.isCb l) ys) := by
+          apply List.filter_congr
+          intro c hc
+          rw [hf c (List.mem_filter.mp hc).1]
+        congr 1
+        · simp [hk, hp, hfil]
+        · simp [hk]
+        · funext c
+          by_cases e : c = y
+          · subst e
+            have : c ∉ List.filter (fun l => t.isCb l) ys := fun hh => hy (List.mem_filter.mp hh).1
+            simp [hk, this]
+          · simp [hk, e, upd_other _ _ e]
+        · funext c
+          by_cases e : c = y
+          · subst e
+            have : c ∉ List.filter (fun l => t.isCb l) ys := fun hh => hy (List.mem_filter.mp hh).1
+            simp [hk, this, cbOuts, hp]
+          · simp [hk, e, upd_other _ _ e, cbOuts]
+      · simp only [hk, hp, if_true, if_false, walked]
+        have hf : ∀ c, c ∈ ys → upd t.left y (t.left y - 1) c = t.left c := fun c hc =>
+          upd_other _ _ (fun e => hy (e ▸ hc))
+        have hfil : List.filter (fun c => decide (0 < upd t.left y (t.left y - 1) c)) (List.filter (fun l => t.isCb l) ys)
+            = List.filter (fun c => decide (0 < t.left c)) (List.filter (fun l => t.isCb l) ys) := by
+          apply List.filter_congr
+          intro c hc
+          rw [hf c (List.mem_filter.mp hc).1]
+        congr 1
+        · simp [hk, hp, hfil]
+        · simp [hk]
+        · funext c
+          by_cases e : c = y
+          · subst e
+            have : c ∉ List.filter (fun l => t.isCb l) ys := fun hh => hy (List.mem_filter.mp hh).1
+            simp [hk, this]
+          · simp [hk, e, upd_other _ _ e]
+        · funext c
+          by_cases e : c = y
+          · subst e
+            have : c ∉ List.filter (fun l => t.isCb l) ys := fun hh => hy (List.mem_filter.mp hh).1
+            simp [hk, this, cbOuts, hp]
+          · simp [hk, e, upd_other _ _ e, cbOuts]
+    · have hk' : t.isCb y = false := by simpa using hk
+      simp only [hk', walked]
+      congr 1
+      · simp [hk']
+      · simp [hk']
+      · funext c; simp [hk']
+      · funext c; simp [hk', cbOuts]
+
+
+/-- the closed form used by `stepEmit` is the loop (for a duplicate-free chain, which `Inv` guarantees) -/
+theorem stepEmit_eq_loop (s : State) (hn : s.chain.Nodup) (byRef : Bool) (v : Nat) :
+    stepEmitLoop s byRef v = stepEmit s byRef v := by
+  unfold stepEmitLoop stepEmit
+  by_cases h0 : s.handles = 0
+  · simp [h0]
+  · simp only [h0, if_false]
+    rw [walk_closed v s.chain _ hn]
+    simp [walked, cbsOf, corosOf, cbOuts]
+
+
+
+
+def walkedDead (t : State) (ys : List Nat) : State :=
+  { t with rel := t.rel ++ ys.filter (fun l => !t.isCb l),
+           got := fun c => if c ∈ ys.filter (fun l => t.isCb l) then t.got c ++ [Out.free] else t.got c }
+
+theorem walkDead_closed (ys : List Nat) (t : State) (hn : ys.Nodup) :
+    ys.foldl walkDead t = walkedDead t ys := by
+  induction ys generalizing t with
+  | nil => simp [walkedDead]
+  | cons y ys ih =>
+    obtain ⟨hy, hn'⟩ := List.nodup_cons.mp hn
+    rw [List.foldl_cons, ih _ hn']
+    unfold walkDead
+    by_cases hk : t.isCb y = true
+    · simp only [hk, if_true, walkedDead]
+      congr 1
+      · simp [hk]
+      · funext c
+        by_cases e : c = y
+        · subst e
+          have : c ∉ List.filter (fun l => t.isCb l) ys := fun hh => hy (List.mem_filter.mp hh).1
+          simp [hk, this]
+        · simp [hk, e, upd_other _ _ e]
+    · have hk' : t.isCb y = false := by simpa using hk
+      simp only [hk', walkedDead]
+      congr 1
+      · simp [hk']
+      · funext c; simp [hk']
+
+
+theorem stepDrop_eq_loop (s : State) (hn : s.chain.Nodup) : stepDropLoop s = stepDrop s := by
+  unfold stepDropLoop stepDrop
+  by_cases h0 : s.handles = 0
+  · simp [h0]
+  · by_cases h1 : s.handles = 1
+    · simp only [h1, if_true]
+      rw [walkDead_closed s.chain _ hn]
+      simp [walkedDead, cbsOf, corosOf]
+    · simp [h0, h1]
+
 end Cocls.Signal
+
+namespace Cocls.Signal.Pub
+
+theorem foldl_uaf (ops : List Op) (s : State) (h : ∀ l, Op.post l ∉ ops) (hs : s.uaf = false) :
+    (ops.foldl step s).uaf = false := by
+  induction ops generalizing s with
+  | nil => exact hs
+  | cons op ops ih =>
+    have h' : ∀ l, Op.post l ∉ ops := fun l hm => h l (List.mem_cons_of_mem _ hm)
+    cases op with
+    | cas l => exact ih _ h' hs
+    | post l => exact absurd List.mem_cons_self (h l)
+    | release => exact ih _ h' hs
+
+end Cocls.Signal.Pub
